@@ -300,6 +300,9 @@ class Verifier:
                 val = ex.to_sv(val, td, st, r.node)
             ctx.result = val
             for cl in k.ensures:
+                only = getattr(self, "only_clauses", None)
+                if only is not None and k.key in only and cl.label not in only[k.key]:
+                    continue  # this run is about other clauses of the contract (they are the subject of another property's check)
                 hz = []
                 if cl.hints is not None:
                     for hi, h in enumerate(cl.hints(ctx)):
